@@ -90,6 +90,27 @@ def derivModes (ks : List Nat) : List BasisMode :=
 def ndsplineevalDeriv (T : Table α) (xs : List α) (cs : List Nat) (ks : List Nat) : α :=
   evalModes T xs cs (derivModes ks)
 
+/-- rows of the value-plus-gradient evaluation (bspline_multi.h): every dimension's values and
+derivatives come from `bspline_nonzero`; lane 0 uses values everywhere, lane `1+n` uses the
+derivative row in dimension `n`. -/
+def gradRows : List (Dim α) → List α → List Nat → (lane : Nat) → (n : Nat) → List (Nat × List α)
+  | d :: ds, x :: xs, c :: cs, lane, n =>
+    let vd := bsplineNonzero d.knots d.nknots x c d.order
+    (d.stride, if lane = n + 1 then vd.2 else vd.1) :: gradRows ds xs cs lane (n + 1)
+  | _, _, _, _, _ => []
+
+/-- SIMD width constants of detail/simd.h (`PHOTOSPLINE_MAXDIM`); regenerated and checked in
+`PsV.Generated` -/
+def maxDimDefault : Nat := 8
+
+/-- `ndsplineeval_gradient`: `none` = refused by exception (`ndim+1 > PHOTOSPLINE_MAXDIM`);
+otherwise value followed by the `ndim` first partial derivatives. Each lane performs the scalar
+walk's operations (`result[k] += basis_tree[k]*localbasis[k]*weights`). -/
+def ndsplineevalGradient (maxDim : Nat) (T : Table α) (xs : List α) (cs : List Nat) : Option (List α) :=
+  if T.dims.length + 1 > maxDim then none else
+  some ((List.range (T.dims.length + 1)).map fun lane =>
+    walk T.coef (gradRows T.dims xs cs lane 0) (A.rnd A.one) (startPos T.dims cs) (A.rnd A.zero))
+
 /-- `operator()(x)`: zero when the lookup fails (`none` when the lookup would not terminate). -/
 def callOp (T : Table α) (xs : List α) : Option α :=
   match searchCenters (T.dims.map Dim.axis) xs with
